@@ -28,6 +28,7 @@ type RiskyReq struct {
 	Cuts  []int    `json:"cuts"`
 	Kinds []string `json:"kinds"`
 	Limit int      `json:"limit"`
+	Name  string   `json:"name"`
 }
 
 // RiskyRes is one line of the child's output.
@@ -60,6 +61,7 @@ func RunRiskyChild() int {
 		out.Flush()
 		src := core.NewSource(req.Data[:cut:cut], nil, nil)
 		src.MaxCalls = 400000 + 400*len(req.Data)
+		src.FileName = req.Name
 		rr := core.ExecReader(req.Shape, src.AsReadSeeker(req.Kinds[i]), req.Limit, nil)
 		res := RiskyRes{Cut: cut, Reported: rr.Reported(), Rows: len(rr.Recs), Panic: rr.Panic, PanicAPI: rr.PanicAPI, Hang: rr.Hang, Runaway: rr.Runaway, Steps: src.Stats.Calls}
 		b, _ := json.Marshal(res)
@@ -72,14 +74,14 @@ func RunRiskyChild() int {
 
 // riskyRead runs the given cuts of a file in sandbox children and returns one
 // result per cut. A child that dies is restarted for the remaining cuts.
-func riskyRead(shape string, data []byte, cuts []int, kinds []string, limit int) (map[int]RiskyRes, error) {
+func riskyRead(shape string, data []byte, cuts []int, kinds []string, limit int, name string) (map[int]RiskyRes, error) {
 	self, err := os.Executable()
 	if err != nil {
 		return nil, err
 	}
 	out := map[int]RiskyRes{}
 	for len(cuts) > 0 {
-		req := RiskyReq{Shape: shape, Data: data, Cuts: cuts, Kinds: kinds, Limit: limit}
+		req := RiskyReq{Shape: shape, Data: data, Cuts: cuts, Kinds: kinds, Limit: limit, Name: name}
 		in, _ := json.Marshal(&req)
 		cmd := exec.Command(self, "readprefix")
 		cmd.Stdin = bytes.NewReader(in)
